@@ -83,6 +83,18 @@ def fmt? : String → Option Fmt
 def maxIntensityTok : String → Option String
   | "f32" => some "x3f800000" | "f64" => some "X3ff0000000000000" | "u8" => some "255" | _ => none
 
+/-- `max_intensity`, `one`, `zero` of the three component types of the harness, as tokens -/
+def compConsts : String → Option (CompConsts String)
+  | "f32" => some ⟨"x3f800000", "x3f800000", "x00000000"⟩
+  | "f64" => some ⟨"X3ff0000000000000", "X3ff0000000000000", "X0000000000000000"⟩
+  | "u8" => some ⟨"255", "1", "0"⟩
+  | _ => none
+
+/-- the value the optional-alpha helper named by `mode` gives a missing alpha, from the function name in serde.rs -/
+def optDefaultTok (mode comp : String) : Option String :=
+  (compConsts comp).bind fun k =>
+    optDefault (if mode == "optprealpha" then Gen.Serde.optPreAlphaDefault else Gen.Serde.optAlphaDefault) k
+
 def splitLast (xs : List String) : Option (List String × String) :=
   match xs.reverse with
   | a :: r => some (r.reverse, a)
@@ -133,7 +145,7 @@ def handle (op : String) (cfg inp outp : List String) : Verdict :=
     | _, .error e, _ => .bad e
     | _, _, _ => .bad "malformed shape line"
   | "de", [f, ty, comp, mode] =>
-    match fmt? f, parseInput inp, maxIntensityTok comp with
+    match fmt? f, parseInput inp, (if mode == "optalpha" || mode == "optprealpha" then optDefaultTok mode comp else maxIntensityTok comp) with
     | some fm, some t, some mx =>
       if Gen.Serde.hueNames.contains ty then
         let r : Res (List String × Option String) := (deHue Gen.Serde.hueTransparent fm t).map fun x => ([x], none)
